@@ -31,6 +31,8 @@ func runC17(p *Program, r *Report) {
 	c17thread(p, r, "C17.thread")
 	c17slice(p, r, "C17.slice")
 	c17safe(p, r, "C17.safe")
+	// the key handed to the transform is the key on the wire: the header codec reads it right behind the length it read (seed C17-M)
+	c03hdr(p, r, "C17.hdr")
 }
 
 // ---- shape certificate on the SSA form -------------------------------------------------------------------------------
